@@ -61,7 +61,13 @@ def _refusal(ctx, f, cfg, target_ids, pred, excname, label, what, refuse_when=Tr
     excs = {}
     for u in cfg.nodes:
         if isinstance(u.ast, ast.Raise) and u.ast.exc is not None:
-            excs[u.id] = dotted(u.ast.exc.func if isinstance(u.ast.exc, ast.Call) else u.ast.exc)
+            d = dotted(u.ast.exc.func if isinstance(u.ast.exc, ast.Call) else u.ast.exc)
+            excs[u.id] = d
+            # `raise errcls(...)` with the class picked into a local before (table driven lookup helper)
+            if d and '.' not in d and not d[:1].isupper():
+                cands = {dotted(o) for o in origins(ast.Name(id=d, ctx=ast.Load()), f.node)} - {None}
+                if excname in cands:
+                    excs[u.id] = excname
     for t in cfg.nodes:
         if t.kind != 'test' or isinstance(t.ast, ast.stmt):
             continue
@@ -100,6 +106,23 @@ def _refusal(ctx, f, cfg, target_ids, pred, excname, label, what, refuse_when=Tr
     return tid
 
 
+def _no_fallback_to_the_wire_name(ctx, f, lookups):
+    """`accessiblename2attr.get(exportedname)`: a name that is not exported translates to None.  A default (`.get(name, name)`,
+    `... or name`) makes an unexported attribute name translate to ITSELF - it is then found in module.parameters / commands"""
+    for n in lookups:
+        v = n.value
+        bad = None
+        for c in [x for x in ast.walk(v) if isinstance(x, ast.Call) and call_attr(x) == 'get' and 'accessiblename2attr' in src(x.func)]:
+            dflt = c.args[1] if len(c.args) > 1 else kwarg(c, 'default')
+            if dflt is not None and not (isinstance(dflt, ast.Constant) and not isinstance(dflt.value, str)):
+                bad = c         # (a constant sentinel that is no string - None, True - can not be a key of parameters / commands)
+        if isinstance(v, ast.BoolOp) and isinstance(v.op, ast.Or) and any(not (isinstance(x, ast.Constant) and x.value is None) for x in v.values[1:]):
+            bad = v
+        ctx.check(bad is None, f'{f.qualname}:no fall-back for names that are not exported', n, f'`{src(v)}`',
+                  f'`{src(bad) if bad is not None else ""}` gives a name that is NOT in the table of exported names a translation after all (itself): an accessible '
+                  'declared with export=False, the attribute name of a renamed parameter, any accessible of an unexported module can be read, changed and executed', f)
+
+
 @rule('C04.R1', min_instances=9)
 def gates_in_order(ctx):
     """must-pass-through chain for change and do requests"""
@@ -117,6 +140,7 @@ def gates_in_order(ctx):
     ctx.check(bool(lookups) and all(cfg.dominates(cfg.ids(lookups[0]), t) for t in drv_ids), f'{f.qualname}:exported-name lookup', f.node,
               'the attribute name is looked up in accessiblename2attr (exported names only)',
               'the wire name is not translated through accessiblename2attr on every path: unexported accessibles become reachable', f)
+    _no_fallback_to_the_wire_name(ctx, f, lookups)
     if lookups:
         chain.append(cfg.ids(lookups[0]))
         # the looked-up name is what is used for the parameter and the driver
